@@ -5412,6 +5412,11 @@ def broadcast_to(x, shape, chunks=None, meta=None):
     ):
         raise ValueError(f"cannot broadcast shape {x.shape} to shape {shape}")
 
+    if any(s == 1 and bd != (1,) for s, bd in zip(x.shape, x.chunks)):
+        # a length-one axis split into several chunks (zero-length ones):
+        # broadcasting works on the single block that holds the element
+        x = x.rechunk({i: 1 for i, s in enumerate(x.shape) if s == 1})
+
     if chunks is None:
         chunks = tuple((s,) for s in shape[:ndim_new]) + tuple(
             bd if old > 1 else (new,)
